@@ -14,9 +14,10 @@ Scalars == {"int", "float", "str", "bool"}
 OptOf(t) == "Opt_" \o t
 Typs == {"absent", "int", "float", "str", "bool", "Opt_int", "Opt_float", "Opt_str", "Opt_bool",
          "Lit", "List_str", "Union_int_str", "Dotted", "dict", "Opt_dict"}
-IsOpt(t) == t \in {"Opt_int", "Opt_float", "Opt_str", "Opt_bool", "Opt_dict", "Opt_Lit"}
+IsOpt(t) == t \in {"Opt_int", "Opt_float", "Opt_str", "Opt_bool", "Opt_dict", "Opt_Lit", "Opt_Lit2"}
 Base(t) == CASE t = "Opt_int" -> "int" [] t = "Opt_float" -> "float" [] t = "Opt_str" -> "str"
-             [] t = "Opt_bool" -> "bool" [] t = "Opt_dict" -> "dict" [] t = "Opt_Lit" -> "Lit" [] OTHER -> t
+             [] t = "Opt_bool" -> "bool" [] t = "Opt_dict" -> "dict" [] t = "Opt_Lit" -> "Lit" [] t = "Opt_Lit2" -> "Lit2" [] OTHER -> t
+\* "Lit" is a Literal whose members are alphabetic words, "Lit2" one whose members contain digits / underscores
 
 Defs == {"absent", "None", "int_pos", "int_zero", "int_neg", "float_pos", "float_neg", "bool_T", "bool_F",
          "str", "str_empty", "code"}
@@ -36,7 +37,7 @@ Compat(t, d) ==
   \/ d \in IntDefs /\ Base(t) \in {"int", "absent", "Union_int_str"}
   \/ d \in FloatDefs /\ Base(t) \in {"float", "absent"}
   \/ d \in BoolDefs /\ Base(t) \in {"bool", "absent"}
-  \/ d = "str" /\ Base(t) \in {"str", "absent", "Lit"}
+  \/ d = "str" /\ Base(t) \in {"str", "absent", "Lit", "Lit2"}
   \/ d = "str_empty" /\ Base(t) \in {"str", "absent"}
   \/ d = "code" /\ Base(t) \in {"int", "absent", "List_str", "Dotted", "dict"}
 
